@@ -351,12 +351,10 @@ def merge_operand_order(ctx, cr):
                sample={"site": k, "line": ln} if i == 0 else None)
 
 
-def every_file_loaded(ctx, cr):
+def every_file_loaded(ctx, cr, rule="R-C17-every-file-loaded"):
     """every file that a discovery loop of Validate::execute accepts (has_a_supported_extension) is loaded: from the accepting branch, every
     path that comes back to the loop head passes through build_data_file (paths that leave the loop are error returns).  A `continue`
     squeezed in between — a de-duplication by base name, a size check — silently drops a parameter or data file."""
-    from rules.c05 import loop_blocks
-    rule = "R-C17-every-file-loaded"
     EX = "<commands::validate::Validate as commands::Executable>::execute"
     f = cr.fns.get(EX)
     if not f:
@@ -365,39 +363,99 @@ def every_file_loaded(ctx, cr):
     succ = [M.successors(b["term"]) for b in f["blocks"]]
     nexts = [bi for bi, t in M.iter_calls(f) if M.norm_path(t["fn"].get("decl", "")) == "std::iter::Iterator::next"]
     loaders = set(bi for bi, t in M.iter_calls(f) if M.norm_path(t["fn"].get("path", "")).endswith("validate::build_data_file"))
-    n = 0
+
+    def no_edge(t):
+        """(block, successor) taken when the boolean a filter call returned is false; None when the result is not branched on directly"""
+        if t.get("to") is None:
+            return None
+        blk = f["blocks"][t["to"]]
+        sw = blk["term"]
+        if sw["t"] != "switch":
+            return None
+        d = M.op_place(sw["d"])
+        dest = t["dest"]
+        inverted = False
+        if d != dest:
+            # `if !filter(..) { continue }` may negate first
+            ok = False
+            for st_ in blk["s"]:
+                rv = st_.get("rv")
+                if rv and st_["p"] == d and rv["r"] in ("un", "unop", "not") and M.op_place(rv.get("o", rv.get("a", {}))) == dest:
+                    ok, inverted = True, True
+                elif rv and st_["p"] == d and rv["r"] == "use" and M.op_place(rv["o"]) == dest:
+                    ok = True
+            if not ok:
+                return None
+        zero = [to for v, to in sw["cases"] if v == 0]
+        if not zero:
+            return None
+        return (t["to"], sw["else"] if inverted else zero[0])
+    # the recognised filters: not a regular file, not a supported extension.  Their "no" edges are the only legitimate ways to skip a file.
+    filter_edges, ext_tests = set(), []
     for bi, t in M.iter_calls(f):
-        if not M.norm_path(t["fn"].get("path", "")).endswith("has_a_supported_extension"):
-            continue
-        loops = [(len(loop_blocks(f, h)), h) for h in nexts if bi in loop_blocks(f, h)]
+        p = M.norm_path(t["fn"].get("path", ""))
+        if p.endswith("has_a_supported_extension") or p in ("std::path::Path::is_file", "std::fs::Metadata::is_file", "std::fs::FileType::is_file"):
+            e = no_edge(t)
+            if p.endswith("has_a_supported_extension"):
+                ext_tests.append((bi, t, e))
+            if e is not None:
+                filter_edges.add(e)
+    n = 0
+    dom = flow.dominators(f)
+    for bi, t, e in ext_tests:
+        loops = [(len(flow.natural_loop(f, h, dom)), h) for h in nexts if bi in flow.natural_loop(f, h, dom)]
         if not loops:
             continue
         header = min(loops)[1]
-        body = loop_blocks(f, header)
-        sw = f["blocks"][t["to"]]["term"] if t.get("to") is not None else None
-        if not sw or sw["t"] != "switch":
+        body = flow.natural_loop(f, header, dom)
+        if e is None:
             ctx.lost(rule, "%s:l.%s" % (rule, t.get("ln")), "branch on has_a_supported_extension")
             continue
-        false_to = [to for v, to in sw["cases"] if v == 0]
-        true_to = sw["else"]
-        # can the loop head be reached again from the accepting branch without passing a loader block?
-        seen, st = set(), [true_to]
-        escaped = False
+        # from the loop head, can the head be reached again without a loader block, other than over a recognised filter's "no" edge?
+        seen, st = set(), [x for x in succ[header] if x in body]
+        # the item arm only: the successor chain of next() up to its switch stays inside the body
+        escaped = None
         while st:
             b = st.pop()
             if b in seen or b in loaders or b not in body:
                 continue
-            seen.add(b)
             if b == header:
                 escaped = True
                 break
-            st.extend(succ[b])
+            seen.add(b)
+            for x in succ[b]:
+                if (b, x) in filter_edges:
+                    continue
+                st.append(x)
         n += 1
         ctx.ob(rule, "%s:discovery-loop#%d" % (rule, n - 1), not escaped,
-               "an accepted file can reach the next iteration without build_data_file (a `continue` / skipped branch after the extension test, l.%s): that file is silently not loaded" % t.get("ln") if escaped
-               else "every accepted file is loaded before the next iteration", fn=f, line=t.get("ln", 0))
+               "a file can reach the next iteration without build_data_file although it is a regular file with a supported extension (a `continue` / extra condition in the loop at l.%s, e.g. a de-duplication): that file is silently not loaded" % f["blocks"][header]["term"].get("ln") if escaped
+               else "every regular file with a supported extension is loaded before the next iteration (the only skips are the is_file and extension tests)", fn=f, line=t.get("ln", 0))
     if n < 2:
         ctx.lost(rule, rule + ":floor", "discovery loops with an extension test: %d (floor 2: data files, parameter files)" % n)
+    # ... and the walk itself hands every directory entry to those loops: walk_dir applies nothing that drops entries (filter_entry,
+    # filter, skip, take, depth limits) between WalkDir::new(base) and its result; `flatten` only drops unreadable entries.
+    WK = "commands::files::walk_dir"
+    wf = cr.fns.get(WK)
+    if not wf:
+        ctx.lost(rule, rule + ":walk", WK)
+    else:
+        DROPS = ("filter_entry", "filter", "filter_map", "skip", "skip_while", "take", "take_while", "step_by", "min_depth", "max_depth", "same_file_system", "find", "nth", "last")
+        unit = flow.unit_functions(cr, WK, ("commands::files",), depth=2)
+        dropping = []
+        has_walk = False
+        for uk in unit:
+            uf = cr.fns.get(uk)
+            if uf is None:
+                continue
+            for bi, t in M.iter_calls(uf):
+                p = M.norm_path(t["fn"].get("path", ""))
+                has_walk = has_walk or p.endswith("WalkDir::new")
+                if p.split("::")[-1] in DROPS and (p.startswith("walkdir::") or p.startswith("std::iter::") or "Iterator" in p):
+                    dropping.append("%s (l.%s)" % (p.split("::")[-1], t.get("ln")))
+        ctx.ob(rule, rule + ":walk-yields-every-entry", has_walk and not dropping,
+               ("walk_dir applies %s to the directory walk: entries it drops (the walk root included, for filter_entry) never reach the loaders, so `-r .` / `-d .` can find nothing and the run exits 0" % dropping) if dropping
+               else ("walk_dir returns the sorted walk with unreadable entries dropped and nothing else" if has_walk else "WalkDir::new not found in walk_dir"), fn=wf)
 
 
 def run(ctx):
